@@ -26,6 +26,9 @@ theorem kind_names_inj : ∀ k₁ ∈ Kind.all, ∀ k₂ ∈ Kind.all, k₁.name
 
 theorem kind_mem_all (k : Kind) : k ∈ Kind.all := by cases k <;> decide
 
+/-- The option key is not a matcher name. -/
+theorem specKind_optionKey : specKind optionKey = none := by decide
+
 /-- No matcher name is taken for the option key by the option lookup of `create_fetch`. -/
 theorem table_not_option : ∀ e ∈ table,
     cjsonKeyEq (Cjet.Generated.Matcher.optionLookupCaseSensitive ||
